@@ -1277,4 +1277,185 @@ example :
       (["x", "a", "math", "abs", "nope"].map (load .exec sc sx)) ∧
     load .evalFixed sc se "a" = .ok (.tok .ctx "a") := by decide +kernel
 
+/-! ### 9. `save(...)` called after its block has ended: every CALL writes exactly its own arguments
+
+  A py block can keep its `save` function — directly (`save('save')`) or inside a helper function whose
+  body calls it (`def note(t): …; save(count=…)` + `save('note')`) — and later code (`!py note(i)`, a
+  decorator, another step) calls it when the block is long over, after any number of context updates,
+  key deletions (`contextclear`) and `contextclearall`.  `runSaveCall st k names kvs` is that call for the
+  block whose namespace object is `k`.  The property's exception "except for what a py block passes
+  explicitly to save(...)" is PER CALL: the call adds / rebinds the keys it was given (`names`, the keys
+  of `kvs`) and nothing else — a key an EARLIER call of the same `save` wrote and the pipeline has since
+  removed stays removed, one it has rebound stays rebound. -/
+
+/-- `savecall_writes_exactly_its_arguments`: a `save(*names, **kvs)` call that returns has performed
+    exactly one `context.update(d ∪ kvs)` where `d` has no key outside `names` and every value of `d` is
+    what that name is bound to in the block's namespace object NOW; imports, heap, namespace objects,
+    the raw slot, builtins are as they were. For every state (whatever happened since the block ended). -/
+theorem savecall_writes_exactly_its_arguments (st st' : St) (k : Nat) (names : List String) (kvs : Env)
+    (h : runSaveCall st k names kvs = (.ok (), st')) :
+    ∃ (r : NsRec) (d : Env), nsGet st.nss k = some r ∧
+      (∀ x ∈ Env.keys d, x ∈ names) ∧
+      (∀ x v, Env.get? d x = some v → Env.get? r.own x = some v) ∧
+      st'.ctx = st.ctx.update (d.update kvs) ∧
+      st'.saved = st.saved ++ d.update kvs ∧
+      st'.imps = st.imps ∧ st'.heap = st.heap ∧ st'.nss = st.nss ∧ st'.hidden = st.hidden ∧
+      st'.bi = st.bi ∧ st'.cur = st.cur := by
+  unfold runSaveCall at h
+  split at h
+  · rename_i r hr
+    split at h
+    · split at h
+      · rename_i d hd
+        simp only [Prod.mk.injEq, true_and] at h
+        subst h
+        refine ⟨r, d, hr, ?_, ?_, rfl, rfl, rfl, rfl, rfl, rfl, rfl, rfl⟩
+        · intro x hx
+          rcases saveNames_keys _ _ _ _ hd x hx with h1 | h1
+          · simp [Env.keys] at h1
+          · exact h1
+        · intro x v hx
+          rcases saveNames_values _ _ _ _ hd x v hx with h1 | h1
+          · simp [Env.get?] at h1
+          · exact h1
+      · simp at h
+    · simp at h
+  · simp at h
+
+/-- `savecall_other_keys_untouched`: a key that is not among the call's arguments reads after the call
+    as it did before it — in particular a key that was ABSENT (removed by `contextclear` / `contextclearall`
+    after an earlier `save` call wrote it) is still absent, and a key that was REBOUND keeps its new
+    value. -/
+theorem savecall_other_keys_untouched (st st' : St) (k : Nat) (names : List String) (kvs : Env)
+    (h : runSaveCall st k names kvs = (.ok (), st')) (x : String) (h1 : x ∉ names) (h2 : x ∉ Env.keys kvs) :
+    st'.ctx.get? x = st.ctx.get? x := by
+  obtain ⟨r, d, _, hd, _, hc, _⟩ := savecall_writes_exactly_its_arguments st st' k names kvs h
+  rw [hc]
+  apply Env.get?_update_of_not_mem
+  intro hx
+  rcases (Env.mem_keys_update d kvs x).mp hx with h3 | h3
+  · exact h1 (hd x h3)
+  · exact h2 h3
+
+/-- `savecall_keys`: the key list after the call = the old key list (same order, nothing removed)
+    followed by new keys, each of which is one of the call's arguments. -/
+theorem savecall_keys (st st' : St) (k : Nat) (names : List String) (kvs : Env)
+    (h : runSaveCall st k names kvs = (.ok (), st')) :
+    Env.keys st.ctx <+: Env.keys st'.ctx ∧
+    ∀ x ∈ Env.keys st'.ctx, x ∈ Env.keys st.ctx ∨ x ∈ names ∨ x ∈ Env.keys kvs := by
+  obtain ⟨r, d, _, hd, _, hc, _⟩ := savecall_writes_exactly_its_arguments st st' k names kvs h
+  rw [hc]
+  refine ⟨Env.keys_update_prefix _ _, ?_⟩
+  intro x hx
+  rcases (Env.mem_keys_update _ _ x).mp hx with h3 | h3
+  · exact Or.inl h3
+  · rcases (Env.mem_keys_update d kvs x).mp h3 with h4 | h4
+    · exact Or.inr (Or.inl (hd x h4))
+    · exact Or.inr (Or.inr h4)
+
+/-- `savecall_error_frame`: a call that raises (a positional name the block's namespace does not bind:
+    KeyError; outside the domain) has changed nothing. -/
+theorem savecall_error_frame (st st' : St) (k : Nat) (names : List String) (kvs : Env) (e : Err)
+    (h : runSaveCall st k names kvs = (.err e, st')) : st' = st := by
+  unfold runSaveCall at h
+  split at h
+  · split at h
+    · split at h
+      · simp at h
+      · simp only [Prod.mk.injEq] at h; exact h.2.symm
+    · simp only [Prod.mk.injEq] at h; exact h.2.symm
+  · simp only [Prod.mk.injEq] at h; exact h.2.symm
+
+theorem ctxDel_get?_of_ne (c : Env) (k x : String) (h : k ≠ x) : (c.erase k).get? x = c.get? x := by
+  induction c with
+  | nil => rfl
+  | cons p rest ih =>
+    obtain ⟨k', v⟩ := p
+    simp only [Env.erase]
+    split
+    · rename_i hk; subst hk; rw [ih, Env.get?_cons, if_neg h]
+    · rw [Env.get?_cons, Env.get?_cons, ih]
+
+theorem ctxDel_get?_same (c : Env) (k : String) : (c.erase k).get? k = Option.none := by
+  induction c with
+  | nil => rfl
+  | cons p rest ih =>
+    obtain ⟨k', v⟩ := p
+    simp only [Env.erase]
+    split
+    · exact ih
+    · rename_i hk; rw [Env.get?_cons, if_neg hk, ih]
+
+theorem runCtxDel_get? (st : St) (ks : List String) (x : String) :
+    (runCtxDel st ks).ctx.get? x = if x ∈ ks then Option.none else st.ctx.get? x := by
+  unfold runCtxDel
+  simp only []
+  generalize st.ctx = c
+  induction ks generalizing c with
+  | nil => simp
+  | cons k rest ih =>
+    simp only [List.foldl_cons, ih, List.mem_cons]
+    by_cases hx : x ∈ rest
+    · simp [hx]
+    · by_cases hk : x = k
+      · subst hk; simp [hx, ctxDel_get?_same]
+      · simp [hx, hk, ctxDel_get?_of_ne c k x (Ne.symm hk)]
+
+/-- `savecall_cleared_key_stays_cleared`: `contextclear` removes keys (some of which an earlier `save`
+    call of block `k` wrote), then the block's `save` is called again with OTHER arguments: the removed keys
+    are still absent. (And after `contextclearall` every key outside the call's arguments is absent.) -/
+theorem savecall_cleared_key_stays_cleared (st st' : St) (ks : List String) (k : Nat) (names : List String)
+    (kvs : Env) (h : runSaveCall (runCtxDel st ks) k names kvs = (.ok (), st'))
+    (x : String) (hx : x ∈ ks) (h1 : x ∉ names) (h2 : x ∉ Env.keys kvs) : st'.ctx.get? x = Option.none := by
+  rw [savecall_other_keys_untouched _ _ _ _ _ h x h1 h2, runCtxDel_get?, if_pos hx]
+
+theorem savecall_after_clearall (st st' : St) (k : Nat) (names : List String) (kvs : Env)
+    (h : runSaveCall (runClearAll st) k names kvs = (.ok (), st'))
+    (x : String) (h1 : x ∉ names) (h2 : x ∉ Env.keys kvs) : st'.ctx.get? x = Option.none := by
+  rw [savecall_other_keys_untouched _ _ _ _ _ h x h1 h2]; rfl
+
+/-- `savecall_rebound_key_stays_rebound`: a later step rebinds a key (`pypyr.steps.set`), then the block's
+    `save` is called with other arguments: the key keeps the later step's value. -/
+theorem savecall_rebound_key_stays_rebound (st st' : St) (x : String) (v : V) (k : Nat) (names : List String)
+    (kvs : Env) (h : runSaveCall (runCtxSet st [(x, v)]) k names kvs = (.ok (), st'))
+    (h1 : x ∉ names) (h2 : x ∉ Env.keys kvs) : st'.ctx.get? x = some v := by
+  rw [savecall_other_keys_untouched _ _ _ _ _ h x h1 h2]
+  simp [runCtxSet, Env.update, Env.get?_set_same]
+
+/-- ```
+    notes = a
+    def note(): return notes          # (a helper; its body calling save(count=…) is `runSaveCall`)
+    draft = len
+    save('note', 'notes', 'draft')
+    ``` -/
+def exSaveBlock : List Stmt :=
+  [.assign "notes" (.name "a"), .def_ "note" [] [] [] (.name "notes"), .assign "draft" (.name "len"),
+   .save ["note", "notes", "draft"] []]
+
+/-- the session of the seeded change C14-5 on the example world: the block saves `note`, `notes`, `draft`;
+    `contextclear` removes `draft`; `set` rebinds `notes`; then `save(count=7)` is called (namespace object 0):
+    `draft` stays removed, `notes` stays rebound, `count` is the one key added — the hypotheses of the
+    theorems above are satisfiable. -/
+example :
+    let st1 := (runPyStep 30 exSt exSaveBlock).2
+    let st2 := runCtxSet (runCtxDel st1 ["draft"]) [("notes", .cst 1)]
+    (runSaveCall st2 0 [] [("count", .cst 7)]).1 = .ok () ∧
+    (runSaveCall st2 0 [] [("count", .cst 7)]).2.ctx =
+      exSt.ctx ++ [("note", .ref 2), ("notes", .cst 1), ("count", .cst 7)] ∧
+    (runSaveCall st2 0 ["nope"] []).1 = .err .keyError ∧
+    (runSaveCall st2 5 [] []).1 = .err .outOfDomain := by decide +kernel
+
+/-- `hoisted_save_dict_counterexample`: the same session against the counter-model in which the dict is
+    made once per `get_save` (`runSaveCallHoisted`, `acc` = what the block's own `save('note', 'notes',
+    'draft')` left in it): the later `save(count=7)` brings `draft` back and resets `notes` — keys that were
+    NOT passed to that call. -/
+theorem hoisted_save_dict_counterexample :
+    let st1 := (runPyStep 30 exSt exSaveBlock).2
+    let st2 := runCtxSet (runCtxDel st1 ["draft"]) [("notes", .cst 1)]
+    let acc : Env := [("note", .ref 2), ("notes", .tok .ctx "a"), ("draft", .tok .ctx "len")]
+    (runSaveCallHoisted st2 acc 0 [] [("count", .cst 7)]).2.1.ctx.get? "draft" = some (.tok .ctx "len") ∧
+    (runSaveCallHoisted st2 acc 0 [] [("count", .cst 7)]).2.1.ctx.get? "notes" = some (.tok .ctx "a") ∧
+    (runSaveCall st2 0 [] [("count", .cst 7)]).2.ctx.get? "draft" = Option.none ∧
+    (runSaveCall st2 0 [] [("count", .cst 7)]).2.ctx.get? "notes" = some (.cst 1) := by decide +kernel
+
 end Pypyr.C14
